@@ -252,7 +252,7 @@ def ref_eval(node, env):
             raise Unspecified('text direction')
         return {'=': c == 0, '<>': c != 0, '<': c < 0, '>': c > 0, '<=': c <= 0, '>=': c >= 0}[op]
     for v in (l, r):
-        if isinstance(v, str) and v and not any(ch.isdigit() for ch in v) and v.strip().lower() not in MONTHISH:
+        if isinstance(v, str) and not any(ch.isdigit() for ch in v) and v.strip().lower() not in MONTHISH:
             return Err('#VALUE!')       # text that spells neither a number nor a date (no digit in it, not a month or day name) under + - * /
         if isinstance(v, bool) or not isinstance(v, (int, float)):
             raise Unspecified('arithmetic on %r' % (v,))
